@@ -146,7 +146,14 @@ func history(h *vh.H, ci int, r vh.R, full bool) {
 		gen++
 		return out
 	}
-	st := state{tau: E*(1+r.IntN(3)) + r.IntN(3)}
+	// every fourth history lives high up in the 32-bit slot range (an epoch-aligned offset near 2^16, 2^31 or just below 2^32): slot
+	// arithmetic narrowed to 16 or 31 bits, or signed, goes wrong only there
+	hiBase := 0
+	if r.IntN(4) == 0 {
+		hiBase = []int{(1 << 16) / E, (1<<16)/E - 1, (1 << 31) / E, (1<<31)/E - 1, (1<<32)/E - 60}[r.IntN(5)] * E
+		h.Inc("histories_high_in_the_slot_range")
+	}
+	st := state{tau: hiBase + E*(1+r.IntN(3)) + r.IntN(3)}
 	st.iota, st.gk, st.kappa, st.la = mk("i"), mk("g"), mk("k"), mk("l")
 	if r.Bool() { // the usual situation: the same validators everywhere
 		st.gk, st.kappa, st.la = st.iota, st.iota, st.iota
